@@ -49,6 +49,69 @@ package graph
 //@   ensures a == i && b == j
 //@   by smt using triMono
 
+// ---- cached counts: number of non-zero indicator bytes among the first k, in row v before
+// column k, and in column v below row k. countsOK says M and Degrees agree with the adjacency.
+//@ spec cntPos(s []byte, k int) int = (k <= 0 ? 0 : cntPos(s, k-1) + (s[k-1] > 0 ? 1 : 0))
+//@ spec rowCnt(s []byte, v int, k int) int = (k <= 0 ? 0 : rowCnt(s, v, k-1) + (s[tri(v)+k-1] > 0 ? 1 : 0))
+//@ spec colCnt(s []byte, v int, k int) int = (k <= v+1 ? 0 : colCnt(s, v, k-1) + (s[tri(k-1)+v] > 0 ? 1 : 0))
+//@ pred countsOK(g *DenseGraph) = g.NumberOfEdges == cntPos(g.Edges, tri(g.NumberOfVertices)) && (forall v in 0..g.NumberOfVertices: g.DegreeSequence[v] == rowCnt(g.Edges, v, v) + colCnt(g.Edges, v, g.NumberOfVertices))
+
+//@ lemma cntPosZero(s []byte, k int)
+//@   requires 0 <= k && k <= len(s) && (forall t in 0..k: s[t] == 0)
+//@   ensures cntPos(s, k) == 0
+//@   by induction k
+//@ lemma rowCntZero(s []byte, v int, k int)
+//@   requires 0 <= k && k <= v && v <= 16777216 && tri(v) + k <= len(s) && (forall t in 0..len(s): s[t] == 0)
+//@   ensures rowCnt(s, v, k) == 0
+//@   by induction k using triMono
+//@ lemma colCntZero(s []byte, v int, k int)
+//@   requires 0 <= v && v < k && k <= 16777216 && tri(k) <= len(s) && (forall t in 0..len(s): s[t] == 0)
+//@   ensures colCnt(s, v, k) == 0
+//@   by induction k using triMono
+
+// two byte slices that differ at most at position p
+//@ spec updAt(s1 []byte, s2 []byte, p int) bool = len(s1) == len(s2) && 0 <= p && p < len(s1) && (forall t in 0..len(s1): t != p ==> s1[t] == s2[t])
+//@ lemma updAtIntro(s1 []byte, s2 []byte, p int)
+//@   requires len(s1) == len(s2) && 0 <= p && p < len(s1) && (forall t in 0..len(s1): t != p ==> s1[t] == s2[t])
+//@   ensures updAt(s1, s2, p)
+//@   by smt
+// effect of changing one indicator byte on the three counts
+//@ lemma cntPosUpd(s1 []byte, s2 []byte, p int, k int)
+//@   requires updAt(s1, s2, p) && 0 <= k && k <= len(s1)
+//@   ensures cntPos(s2, k) == cntPos(s1, k) + (p < k ? (s2[p] > 0 ? 1 : 0) - (s1[p] > 0 ? 1 : 0) : 0)
+//@   by induction k
+//@   opt axiomatize=updAt
+//@   pattern updAt(s1, s2, p), cntPos(s2, k)
+//@ lemma rowCntUpd(s1 []byte, s2 []byte, p int, v int, k int)
+//@   requires updAt(s1, s2, p) && 0 <= k && k <= v && v <= 16777216 && tri(v) + k <= len(s1)
+//@   ensures rowCnt(s2, v, k) == rowCnt(s1, v, k) + ((tri(v) <= p && p < tri(v) + k) ? (s2[p] > 0 ? 1 : 0) - (s1[p] > 0 ? 1 : 0) : 0)
+//@   by induction k using triMono
+//@   opt axiomatize=updAt,tri
+//@   pattern updAt(s1, s2, p), rowCnt(s2, v, k)
+// column v below row k: position tri(w)+v for v < w < k; b is the row of p (p == tri(b)+a, a < b)
+//@ spec pairAt(a int, b int) int = tri(b) + a
+//@ lemma colCntUpd(s1 []byte, s2 []byte, a int, b int, v int, k int)
+//@   requires 0 <= a && a < b && b <= 16777216 && updAt(s1, s2, pairAt(a, b)) && 0 <= v && v < k && k <= 16777216 && tri(k) <= len(s1)
+//@   ensures colCnt(s2, v, k) == colCnt(s1, v, k) + ((v == a && b < k) ? (s2[tri(b)+a] > 0 ? 1 : 0) - (s1[tri(b)+a] > 0 ? 1 : 0) : 0)
+//@   by induction k using triMono,triInj
+//@   opt axiomatize=updAt,tri,pairAt
+//@   pattern updAt(s1, s2, pairAt(a, b)), colCnt(s2, v, k)
+//@ lemma cntPosBound(s []byte, k int)
+//@   requires 0 <= k && k <= len(s)
+//@   ensures 0 <= cntPos(s, k) && cntPos(s, k) <= k
+//@   by induction k
+//@   pattern cntPos(s, k)
+//@ lemma rowCntBound(s []byte, v int, k int)
+//@   requires 0 <= k && k <= v && v <= 16777216 && tri(v) + k <= len(s)
+//@   ensures 0 <= rowCnt(s, v, k) && rowCnt(s, v, k) <= k
+//@   by induction k using triMono
+//@   pattern rowCnt(s, v, k)
+//@ lemma colCntBound(s []byte, v int, k int)
+//@   requires 0 <= v && v < k && k <= 16777216 && tri(k) <= len(s)
+//@   ensures 0 <= colCnt(s, v, k) && colCnt(s, v, k) <= k - v - 1
+//@   by induction k using triMono
+//@   pattern colCnt(s, v, k)
+
 //@ func NewDense
 //@   requires 0 <= n && n <= 16777216
 //@   panics when edges != nil && len(edges) != tri(n)
@@ -56,14 +119,26 @@ package graph
 //@   ensures fresh(result.Edges) && fresh(result.DegreeSequence)
 //@   ensures edges == nil ==> forall k in 0..tri(n): result.Edges[k] == 0
 //@   ensures edges != nil ==> forall k in 0..tri(n): result.Edges[k] == edges[k]
-//@   opt lemmas=triMono
-//@   opt wrapcounters=NumberOfEdges,DegreeSequence,degrees,m
+//@   ensures countsOK(result)
+//@   opt lemmas=triMono,cntPosZero,rowCntZero,colCntZero
+//@   opt axiomatize=tri
 //@   loop 1
-//@     invariant 0 <= j && j <= n && index == tri(j) && len(edges) == tri(n) && len(degrees) == n
+//@     invariant 0 <= j && j <= n && index == tri(j) && len(edges) == tri(n) && len(degrees) == n && len(copyOfEdges) == tri(n) && fresh(copyOfEdges) && fresh(degrees)
+//@     invariant forall t in 0..tri(n): copyOfEdges[t] == edges[t]
+//@     invariant 0 <= m && m <= index && m == cntPos(copyOfEdges, index)
+//@     invariant forall v in 0..n: 0 <= degrees[v] && degrees[v] <= index
+//@     invariant forall v in 0..j: degrees[v] == rowCnt(copyOfEdges, v, v) + colCnt(copyOfEdges, v, j)
+//@     invariant forall v in j..n: degrees[v] == 0
 //@     use triStep(j-1)
 //@     decreases n - j
 //@   loop 2
-//@     invariant 0 <= i && i <= j && j < n && index == tri(j) + i && len(edges) == tri(n) && len(degrees) == n
+//@     invariant 0 <= i && i <= j && j < n && index == tri(j) + i && len(edges) == tri(n) && len(degrees) == n && len(copyOfEdges) == tri(n) && fresh(copyOfEdges) && fresh(degrees)
+//@     invariant forall t in 0..tri(n): copyOfEdges[t] == edges[t]
+//@     invariant 0 <= m && m <= index && m == cntPos(copyOfEdges, index)
+//@     invariant forall v in 0..n: 0 <= degrees[v] && degrees[v] <= index
+//@     invariant forall v in 0..j: degrees[v] == rowCnt(copyOfEdges, v, v) + colCnt(copyOfEdges, v, j) + ((v < i && copyOfEdges[tri(j)+v] > 0) ? 1 : 0)
+//@     invariant degrees[j] == rowCnt(copyOfEdges, j, i)
+//@     invariant forall v in j+1..n: degrees[v] == 0
 //@     use triStep(j-1)
 //@     decreases j - i
 
@@ -76,7 +151,13 @@ package graph
 //@   modifies g, g.Edges, g.DegreeSequence
 //@   ensures sizesDense(g) && g.NumberOfVertices == old(g.NumberOfVertices)
 //@   ensures forall a in 0..g.NumberOfVertices: forall b in 0..g.NumberOfVertices: edgeD(g, a, b) <==> (old(edgeD(g, a, b)) || (i != j && ((a == i && b == j) || (a == j && b == i))))
-//@   opt lemmas=triMono,triInj
+//@   ensures [cntM] old(countsOK(g)) ==> g.NumberOfEdges == cntPos(g.Edges, tri(g.NumberOfVertices))
+//@   ensures [cntD] old(countsOK(g)) ==> forall v in 0..g.NumberOfVertices: g.DegreeSequence[v] == rowCnt(g.Edges, v, v) + colCnt(g.Edges, v, g.NumberOfVertices)
+//@   use at exit updAtIntro(old(g.Edges), g.Edges, pairAt(i, j))
+//@   use at exit updAtIntro(old(g.Edges), g.Edges, pairAt(j, i))
+//@   opt lemmas=triMono,triInj,cntPosUpd,rowCntUpd,colCntUpd,cntPosBound,rowCntBound,colCntBound
+//@   opt axiomatize=tri,updAt,pairAt
+//@   opt splitfirst=all
 //@   opt wrapcounters=NumberOfEdges,DegreeSequence,degrees,m
 
 //@ func (*DenseGraph).RemoveEdge
@@ -84,7 +165,13 @@ package graph
 //@   modifies g, g.Edges, g.DegreeSequence
 //@   ensures sizesDense(g) && g.NumberOfVertices == old(g.NumberOfVertices)
 //@   ensures forall a in 0..g.NumberOfVertices: forall b in 0..g.NumberOfVertices: edgeD(g, a, b) <==> (old(edgeD(g, a, b)) && !((a == i && b == j) || (a == j && b == i)))
-//@   opt lemmas=triMono,triInj
+//@   ensures [cntM] old(countsOK(g)) ==> g.NumberOfEdges == cntPos(g.Edges, tri(g.NumberOfVertices))
+//@   ensures [cntD] old(countsOK(g)) ==> forall v in 0..g.NumberOfVertices: g.DegreeSequence[v] == rowCnt(g.Edges, v, v) + colCnt(g.Edges, v, g.NumberOfVertices)
+//@   use at exit updAtIntro(old(g.Edges), g.Edges, pairAt(i, j))
+//@   use at exit updAtIntro(old(g.Edges), g.Edges, pairAt(j, i))
+//@   opt lemmas=triMono,triInj,cntPosUpd,rowCntUpd,colCntUpd,cntPosBound,rowCntBound,colCntBound
+//@   opt axiomatize=tri,updAt,pairAt
+//@   opt splitfirst=all
 //@   opt wrapcounters=NumberOfEdges,DegreeSequence,degrees,m
 
 //@ func (DenseGraph).Neighbours
@@ -112,12 +199,34 @@ package graph
 //@     invariant forall u in v+1..i: g.Edges[tri(u)+v] > 0 ==> exists k in 0..len(r): r[k] == u
 //@     decreases g.NumberOfVertices - i
 
+// equal contents give equal counts
+//@ lemma cntPosExt(s1 []byte, s2 []byte, k int)
+//@   requires 0 <= k && k <= len(s1) && k <= len(s2) && (forall t in 0..k: s1[t] == s2[t])
+//@   ensures cntPos(s1, k) == cntPos(s2, k)
+//@   by induction k
+//@   pattern cntPos(s1, k), cntPos(s2, k)
+//@ lemma rowCntExt(s1 []byte, s2 []byte, v int, k int)
+//@   requires 0 <= k && k <= v && v <= 16777216 && len(s1) == len(s2) && tri(v) + k <= len(s1) && (forall t in 0..len(s1): s1[t] == s2[t])
+//@   ensures rowCnt(s1, v, k) == rowCnt(s2, v, k)
+//@   by induction k using triMono
+//@   opt axiomatize=tri
+//@   pattern rowCnt(s1, v, k), rowCnt(s2, v, k)
+//@ lemma colCntExt(s1 []byte, s2 []byte, v int, k int)
+//@   requires 0 <= v && v < k && k <= 16777216 && len(s1) == len(s2) && tri(k) <= len(s1) && (forall t in 0..len(s1): s1[t] == s2[t])
+//@   ensures colCnt(s1, v, k) == colCnt(s2, v, k)
+//@   by induction k using triMono
+//@   opt axiomatize=tri
+//@   pattern colCnt(s1, v, k), colCnt(s2, v, k)
+
 //@ func (*DenseGraph).Copy
 //@   requires sizesDense(g)
 //@   ensures fresh(result) && sizesDense(as_DenseGraph(result)) && fresh(as_DenseGraph(result).Edges) && fresh(as_DenseGraph(result).DegreeSequence)
 //@   ensures as_DenseGraph(result).NumberOfVertices == g.NumberOfVertices && as_DenseGraph(result).NumberOfEdges == g.NumberOfEdges
 //@   ensures forall k in 0..len(g.Edges): as_DenseGraph(result).Edges[k] == g.Edges[k]
 //@   ensures forall k in 0..len(g.DegreeSequence): as_DenseGraph(result).DegreeSequence[k] == g.DegreeSequence[k]
+//@   ensures [counts] countsOK(g) ==> countsOK(as_DenseGraph(result))
+//@   opt lemmas=triMono,cntPosExt,rowCntExt,colCntExt
+//@   opt axiomatize=tri
 
 //@ pred inInts(x int, s []int) = exists k in 0..len(s): s[k] == x
 
